@@ -13,7 +13,6 @@ func genC03(o *Out) {
 	fp := o.pinFile("isaac/voteproof.go", "baseExpelVoteproof.isValid", "isValidithdrawVoteproof", "baseVoteproof.Result", "baseVoteproof.SetMajority")
 	fn := o.pinFile("base/base_operation.go", "BaseNodeOperation.IsValid")
 	_ = fn
-	_ = fp
 	if fs == nil || fv == nil || fb == nil || fo == nil {
 		return
 	}
@@ -49,4 +48,13 @@ func genC03(o *Out) {
 			strings.Contains(src, "case result != vp.Result():")
 	}
 	o.boolean("recountChecksMembership", member)
+	stuck := false
+	if fp != nil {
+		if fd := fp.Func("baseStuckVoteproof", "isValid"); fd != nil {
+			src := normSpace(fp.Src(fd.Body))
+			stuck = strings.Contains(src, "if ovp.majority != nil { return util.ErrInvalid.Errorf(")
+		}
+		o.pin(fp, "baseStuckVoteproof", "isValid")
+	}
+	o.boolean("stuckRejectsMajority", stuck)
 }
